@@ -74,6 +74,9 @@ def join_case(draw, tier):
     # inputs that are themselves sort views on the join key (ascending or descending): the operator must not take them
     # for sorted input unless they are
     c["upstream"] = [draw(st.sampled_from(["none", "none", "none", "asc", "desc"])) for _ in range(2)]
+    # presorted=True on inputs the harness has sorted by the key (only where every key cell is present: a cell filled in by
+    # squaring up would be sorted as None by the harness and as `missing` by the operator)
+    c["presorted"] = draw(st.integers(0, 3)) == 0
     c["forms"] = [draw(st.sampled_from(["lists", "lists", "lists"] + catgen.FORMS)) for _ in range(2)]
     # self-join: ONE table object is both inputs, joined on two different fields of it (boss/id style)
     if len(lh) >= 2 and draw(st.integers(0, 5)) == 0:
@@ -130,10 +133,21 @@ def check_join(case, ctx):
         Rs = etl.sort(Rs, tuple(rki), reverse=ups[1] == "desc")
     if ups != ["none", "none"]:
         ctx.label("upstream-sortview")
+    if (case.get("presorted") and ups == ["none", "none"] and not case.get("selfjoin") and lki
+            and all(len(r) > max(lki) for r in case["left"][1:]) and all(len(r) > max(rki) for r in case["right"][1:])):
+        Ls = catgen.shape([list(r) for r in R.ref_sort(case["left"], tuple(lki))], forms[0])
+        Rs = catgen.shape([list(r) for r in R.ref_sort(case["right"], tuple(rki))], forms[1])
+        kw = {k: v for k, v in kw.items() if k not in ("buffersize", "tempdir")}
+        kw["presorted"] = True
+        ctx.label("presorted")
     try:
-        got = [tuple(r) for r in getattr(etl, fn)(Ls, Rs, **kw)]
+        view = getattr(etl, fn)(Ls, Rs, **kw)
+        got = [tuple(r) for r in view]
+        again = [tuple(r) for r in view]
     except Exception as ex:
         return exc_fail(fn, ex)
+    if again != got:
+        return Fail(fn + "/second-pass-differs", "second pass gave %r, first pass %r" % (again, got))
     if not got or got[0] != hdr:
         return Fail(fn + "/header", "got %r expected %r" % (got[:1], hdr))
     if not R.same_multiset(got[1:], exp):
@@ -141,6 +155,10 @@ def check_join(case, ctx):
     keys = [R.keytuple(r, lk) for r in got[1:]]
     if not R.is_sorted_seq(keys):
         return Fail(fn + "/key-order", "output keys not ascending: %r" % (keys,))
+    if sorted(map(codec.dumps, got[1:])) != sorted(map(codec.dumps, exp)):
+        # == is not enough where 1, 1.0 and True are keys: a matched row carries the LEFT table's cells followed by the right
+        # table's non-key cells; an unmatched right row its own key
+        return Fail(fn + "/cell-origin", "%s(%r, %r, %r) gave %r, the cells should be %r" % (fn, L, Rt, kw, got[1:], exp))
     return None
 
 
